@@ -2,6 +2,7 @@
 // Built once plainly (g++) and once with clang -fsanitize=unsigned-integer-overflow in recover mode;
 // the report hook below attributes an intermediate wrap to the (op, a, b, n) being evaluated.
 // usage: c12_modcube PART NPARTS K
+//        c12_modcube single OP A B N      (replay of one case)
 #pragma once
 #include <algorithm>
 
@@ -101,7 +102,31 @@ inline void report(CubeStats &st, int slot, const char *kind, const char *op, u6
         }                                                                                   \
     } while (0)
 
+inline int modcube_single(int argc, char **argv) {
+    if (argc < 6) return 2;
+    const std::string op = argv[2];
+    const u64 a = std::strtoull(argv[3], nullptr, 10), b = std::strtoull(argv[4], nullptr, 10),
+              n = std::strtoull(argv[5], nullptr, 10);
+    CubeStats st;
+    if (op == "add_mod")
+        C12_CALL(0, "add_mod", au::detail::add_mod(a, b, n), (u64)(((u128)a + b) % n), a, b, n);
+    else if (op == "sub_mod")
+        C12_CALL(1, "sub_mod", au::detail::sub_mod(a, b, n), (u64)(((u128)a + n - b) % n), a, b, n);
+    else if (op == "mul_mod")
+        C12_CALL(2, "mul_mod", au::detail::mul_mod(a, b, n), (u64)(((u128)a * b) % n), a, b, n);
+    else if (op == "half_mod_odd")
+        C12_CALL(3, "half_mod_odd", au::detail::half_mod_odd(a, n),
+                 (u64)((((u128)a) + ((a & 1) ? (u128)n : 0)) / 2), a, 0, n);
+    else if (op == "pow_mod")
+        C12_CALL(4, "pow_mod", au::detail::pow_mod(a, b, n), powmod(a, b, n), a, b, n);
+    else
+        return 2;
+    std::printf("S {\"evals\":%llu,\"viol\":%llu,\"wraps\":%llu}\n", st.evals, st.viol, st.wraps);
+    return 0;
+}
+
 inline int modcube_main(int argc, char **argv) {
+    if (argc >= 2 && std::string(argv[1]) == "single") return modcube_single(argc, argv);
     if (argc < 4) return 2;
     const int part = std::atoi(argv[1]), nparts = std::atoi(argv[2]);
     const u64 K = std::strtoull(argv[3], nullptr, 10);
